@@ -9,6 +9,25 @@ use oxidd_core::{
 mod segtree;
 use segtree::MinSegTree;
 
+/// Verification hooks (feature `oxidd_verif`)
+#[cfg(feature = "oxidd_verif")]
+pub mod verif {
+    use std::sync::atomic::AtomicBool;
+
+    /// Make [`set_var_order()`][super::set_var_order] use the concurrent sort
+    /// regardless of the number of nodes (if there is more than one worker)
+    pub static FORCE_CONCURRENT: AtomicBool = AtomicBool::new(false);
+
+    /// Level swap events `(kind, index)`: kind 0 = swap of the non-empty
+    /// levels `index` and `index + 1` begins, 1 = it ended; 2 = a
+    /// `set_var_order` call chose the concurrent sort
+    pub static EVENTS: parking_lot::Mutex<Vec<(u8, u32)>> = parking_lot::Mutex::new(Vec::new());
+
+    pub(super) fn event(kind: u8, index: u32) {
+        EVENTS.lock().push((kind, index));
+    }
+}
+
 /// Reorder the variables according to `order`
 ///
 /// Sequential version of [`set_var_order()`].
@@ -53,6 +72,13 @@ where
     }
     let sequential =
         manager.workers().current_num_threads() == 1 || manager.approx_num_inner_nodes() < 65536;
+    #[cfg(feature = "oxidd_verif")]
+    let sequential = manager.workers().current_num_threads() == 1
+        || (sequential && !verif::FORCE_CONCURRENT.load(Relaxed));
+    #[cfg(feature = "oxidd_verif")]
+    if !sequential {
+        verif::event(2, 0);
+    }
     let (sort, update): (SortFn<M>, UpdateLevelFn<M>) = if sequential {
         (bubble_sort, update_levels_seq)
     } else {
@@ -119,7 +145,11 @@ fn set_var_order_common<M: Manager>(
                 let l = from_ne[(i + 1) as usize];
                 let up = to_pre[u as usize].load(Relaxed);
                 let lp = to_pre[l as usize].load(Relaxed);
+                #[cfg(feature = "oxidd_verif")]
+                verif::event(0, i);
                 unsafe { crate::level_swap(manager, u, l, up, lp) };
+                #[cfg(feature = "oxidd_verif")]
+                verif::event(1, i);
                 to_pre[u as usize].store(lp, Relaxed);
                 to_pre[l as usize].store(up, Relaxed);
             };
